@@ -126,8 +126,9 @@ type shownTerm struct {
 }
 
 type genFile struct {
-	name  *Term
-	cell  *Value
+	name   *Term
+	plugin *Value
+	cell   *Value
 	lines []*Term
 	imps  []string
 }
@@ -338,6 +339,11 @@ func (e *Engine) globalInit(g *ssa.Global, elem types.Type) (Value, bool) {
 	}
 	if strings.HasPrefix(g.Name(), "init$guard") {
 		return nil, false
+	}
+	if g.Pkg != nil && g.Pkg.Pkg.Path() == "os" && (g.Name() == "Stderr" || g.Name() == "Stdout" || g.Name() == "Stdin") {
+		c := new(Value)
+		*c = &Native{Kind: "osfile", Data: g.Name()}
+		return Ptr{P: c}, true // writes to it are modelled as no-ops (fmt.Fprint*)
 	}
 	if g.Pkg != nil && !e.initAllowed(g.Pkg) && initAssigned(g) {
 		e.abort("unsupported", "read of package variable %s whose initialiser is not executed (add a model or -init %s)", g.String(), g.Pkg.Pkg.Path())
